@@ -124,7 +124,8 @@ def tlc(ctx, module, cfg=None, workers=8, env_extra=None, timeout=3600, simulate
     if constants:
         text = open(cfg_path).read()
         for k, v in constants.items():
-            text, n = re.subn(r"(^|\s)%s\s*=\s*\S+" % re.escape(k), r"\g<1>%s = %s" % (k, v), text)
+            text, n = re.subn(r"(?m)^(\s*(?:CONSTANTS?\s+)?)%s\s*=.*$" % re.escape(k),
+                              lambda mo: "%s%s = %s" % (mo.group(1), k, v), text)
             if n == 0:
                 raise ToolError("constant %s not in %s" % (k, cfg_path))
         cfg_path = ctx.path(cfg + ".cfg")
@@ -134,9 +135,6 @@ def tlc(ctx, module, cfg=None, workers=8, env_extra=None, timeout=3600, simulate
     env["JAVA_TOOL_OPTIONS"] = java_opts
     if env_extra:
         env.update({k: str(v) for k, v in env_extra.items()})
-    cmd = ["java", "-XX:+UseParallelGC", "-Xmx" + xmx, "-cp", "/opt/veriftools/tla/tla2tools.jar:" +
-           os.environ.get("TLA_COMMUNITY", "/opt/veriftools/tla/CommunityModules-deps.jar"),
-           "tlc2.TLC"]
     # use the wrapper on PATH (knows the CommunityModules classpath)
     cmd = ["tlc", "-workers", str(workers), "-metadir", meta, "-cleanup", "-noGenerateSpecTE",
            "-config", cfg_path]
@@ -246,6 +244,7 @@ def finish(ctx, level="model_checking", rule="", assumptions=None, explanation=N
     new = 0
     known = 0
     lines = []
+    unlisted = []
     for sig, vs in sorted(by_sig.items()):
         if sig in open_sigs:
             known += 1
@@ -253,13 +252,18 @@ def finish(ctx, level="model_checking", rule="", assumptions=None, explanation=N
                          (ctx.pid, open_sigs[sig]["what"], sig, len(vs), vs[0]["detail"][:300]))
         else:
             new += 1
-            rp = os.path.join(REPLAY_DIR, "%s-%d.json" % (ctx.pid, new))
-            json.dump({"property": ctx.pid, "signature": sig, "tier": ctx.tier, "seed": ctx.seed,
-                       "occurrences": len(vs),
-                       "cases": [{"detail": v["detail"], "data": v["data"]} for v in vs[:20]]},
-                      open(rp, "w"), indent=1)
-            lines.append("VIOLATION property=%s replay=%s" % (ctx.pid, rp))
-            log("  signature: %s  (%d occurrence(s))  e.g. %s" % (sig, len(vs), vs[0]["detail"][:600]))
+            unlisted.append({"signature": sig, "occurrences": len(vs),
+                             "cases": [{"detail": v["detail"], "data": v["data"]} for v in vs[:5]]})
+            if new <= 12:
+                log("  signature: %s  (%d occurrence(s))  e.g. %s" % (sig, len(vs), vs[0]["detail"][:400]))
+    if new:
+        # one VIOLATION line per run; the replay file lists every unlisted signature with example cases
+        rp = os.path.join(REPLAY_DIR, "%s-%s.json" % (ctx.pid, ctx.tier))
+        json.dump({"property": ctx.pid, "tier": ctx.tier, "seed": ctx.seed, "unlisted_signatures": unlisted},
+                  open(rp, "w"), indent=1)
+        lines.append("VIOLATION property=%s replay=%s" % (ctx.pid, rp))
+        if new > 12:
+            log("  ... and %d more signatures (see replay file)" % (new - 12))
     cov = {
         "states": ctx.states,
         "transitions": ctx.transitions,
